@@ -607,7 +607,7 @@ example : (GB.LTS.run Fence.step (Fence.init .fixed .ws)
     some [lpmTrailer [], lpmMessage [1], lpmMessage [2], lpmTrailer (encodeMD (trailerWithStatus [] 0 []))] := by decide
 
 
-/-! ### trailer content: no value can add a line to the block (fix D36) -/
+/-! ### trailer content: no value can add a line to the block (fix D38) -/
 
 /-- lpmTrailerValue never lets CR or LF through, for EVERY key and EVERY value byte string: a binary (-bin) value becomes
     base64 text (only `A-Za-z0-9+/`, so no NUL / control byte either), any other value has its CR and LF replaced by SP. -/
